@@ -215,17 +215,23 @@ def check_source_string(cx, rule):
     for cfg, pg in cx.progs.items():
         fu = cx.fn('update_source', 'ConnUserState', prog=pg)
         w = cx.walk(fu, args=[ME], prog=pg, key='c01src')
-        apps = [e for e in w.events if e.kind == 'local_mut' and e.data['method'] in ('push', 'push_str', 'add_assign')]
         st = [e for e in w.events if e.kind == 'assign' and not e.data.get('init') and e.data['lhs'] == ('field', ME, 'source')]
         nick_some = Atom(('is', ('field', ME, 'nick'), 'Some'))
         name_some = Atom(('is', ('field', ME, 'name'), 'Some'))
-        want = [(('some_of', ('field', ME, 'nick')), nick_some), (('lit', '!'), nick_some), (('lit', '~'), name_some),
-                (('some_of', ('field', ME, 'name')), name_some), (('lit', '@'), T), (('field', ME, 'hostname'), T)]
-        got = [(e.data['args'][0], e.pc) for e in apps]
+        NICKV, NAMEV, HOSTV = ('some_of', ('field', ME, 'nick')), ('some_of', ('field', ME, 'name')), ('field', ME, 'hostname')
         rule.instance('[%s] update_source appends nick ! ~ user @ host and stores the result' % cfg)
-        ok = len(got) == len(want) and all(g[0] == x[0] and equivalent(g[1], x[1])[0] for g, x in zip(got, want)) and len(st) == 1 \
-            and st[0].pc == T and apps and st[0].data['rhs'] == apps[0].data['local'] and st[0].seq > apps[-1].seq and \
-            len({repr(e.data['local']) for e in apps}) == 1
+        ok = len(st) == 1 and st[0].pc == T
+        if ok:
+            # the stored string, case by case (however it is put together: pushes, format!, helper), against the specified one
+            got = string_cases(w, st[0].data['rhs'])
+            for hn in (True, False):
+                for hu in (True, False):
+                    cond = And(nick_some if hn else Not(nick_some), name_some if hu else Not(name_some))
+                    want = ([NICKV, ('lit', '!')] if hn else []) + ([('lit', '~'), NAMEV] if hu else []) + [('lit', '@'), HOSTV]
+                    wantm = string_cases(w, ('fmt', tuple(('arg', i) for i in range(len(want)))) + tuple(want))[0][1]
+                    mine = [ps for c_, ps in got if sat(And(c_, cond)) is not None]
+                    if not mine or any(ps != wantm for ps in mine):
+                        ok = False
         if not ok:
             rule.violation('ConnUserState::update_source|shape', 'the source string is not built as <nick>!~<user>@<host> from the '
                            'connection\'s own fields: every message of this connection is then attributed wrongly', loc=fu, config=cfg)
